@@ -780,6 +780,40 @@ TOYS = [(11, 1, 6), (13, 2, 4), (11, 0, 2), (17, 1, 3), (23, 1, 1), (13, 0, 3), 
 TOYS_NO_H = [(23, 1, 1), (19, 0, 4), (19, 2, 5), (29, 1, 7), (223, 1, 1)]
 
 
+# user-defined curves with coordinate length 2 (256 < p < 2^16), so that the COMPRESSED form is reachable on a user curve
+# (for p < 256 a 2-byte string is read as the raw form), all with a root of x^3 + ax + b (2-torsion):
+# (263,1,0): b = 0, #E = 264 = 24*11;  (269,1,2): 284 = 4*71, one root;  (271,1,1): 274 = 2*137;  (269,3,2): 292 = 4*73, three roots
+MIDS = [(263, 1, 0), (269, 1, 2), (271, 1, 1), (269, 3, 2)]
+
+
+def mid_toys():
+    out = [toy_curve(*t) for t in MIDS] + [toy_curve(*MIDS[1], declare_h=False)]
+    return [ci for ci in out if ci is not None]
+
+
+def two_torsion_x(ci):
+    """the roots of x^3 + ax + b mod p, for small p by enumeration, for SECP112r2-like curves from the order-2 point"""
+    if ci.p < 70000:
+        return [x for x in range(ci.p) if (x * x * x + ci.a * x + ci.b) % ci.p == 0]
+    return [x for (tag, x, y) in small_subgroup_points(ci) if y == 0] if ci.h != 1 else []
+
+
+def mid_candidates(ci):
+    """byte strings for a coordinate-length-2 user curve: the compressed form with prefixes 00 02 03 04 05 for EVERY x in
+    [0, p+2] and 65535 (so both parities of every 2-torsion x, of every residue and non-residue), and raw / uncompressed /
+    hybrid (both prefixes) of every point of the curve and of an off-curve neighbour"""
+    out = []
+    for pre in (2, 3, 0, 4, 5):
+        for x in list(range(ci.p + 3)) + [65535]:
+            out.append(bytes([pre]) + x.to_bytes(2, "big"))
+    for (x, y) in ci.points:
+        raw = x.to_bytes(2, "big") + y.to_bytes(2, "big")
+        out += [raw, b"\x04" + raw, b"\x06" + raw, b"\x07" + raw]
+        out.append(b"\x04" + x.to_bytes(2, "big") + ((y + 1) % ci.p).to_bytes(2, "big"))
+    out += [b"", b"\x02", b"\x02\x00", b"\x04" + bytes(3), bytes(4), bytes(5)]
+    return out
+
+
 def all_toys():
     """every toy CurveInfo of the truth tables: declared cofactor, and undeclared (cofactor() is None)"""
     out = [toy_curve(*t) for t in TOYS] + [toy_curve(*t, declare_h=False) for t in TOYS_NO_H]
